@@ -82,25 +82,25 @@ def run(ctx):
         for st in restore.stmts(b):
             d = st.get("d")
             if d and d["l"] == 1 and d["p"]:
-                rest_txt.append((mir.place_fields(d)[0], show(restore.expr_rvalue(st["rv"], deep=False))))
+                rest_txt.append((mir.place_fields(d)[0], show(restore.denamed(restore.expr_rvalue(st["rv"])))))
         t = restore.term(b)
         if t["k"] == "call" and t.get("args"):
             a0 = show(restore.expr_op(t["args"][0]))
             m = (t.get("callee") or "").split("::")[-1]
             for fld in ser_fields:
                 if f"self.{fld}" in a0 and m in ("restore", "set_position", "truncate"):
-                    rest_txt.append((fld, m + "(" + ", ".join(show(restore.expr_op(a, deep=False)) for a in t["args"][1:]) + ")"))
+                    rest_txt.append((fld, m + "(" + ", ".join(show(restore.denamed(restore.expr_op(a))) for a in t["args"][1:]) + ")"))
     restored = {}
     for fld, how in rest_txt:
         restored.setdefault(fld, []).append(how)
     for fld in ser_fields:
         hows = restored.get(fld, [])
         if fld == "output":
-            ok = any(h.startswith("set_position(") and "output_position" in h for h in hows) and any(h.startswith("truncate(") and "output_position" in h for h in hows)
+            ok = any(h.startswith("set_position(") and "$2.output_position" in h for h in hows) and any(h.startswith("truncate(") and "$2.output_position" in h for h in hows)
         elif fld == "tree_cache":
-            ok = any(h.startswith("restore(") and "state.tree_cache" in h for h in hows)
+            ok = any(h.startswith("restore(") and "$2.tree_cache" in h for h in hows)
         else:
-            ok = any(h == f"state.{fld}" for h in hows)
+            ok = any(h == f"$2.{fld}" for h in hows)
         ck.ob("R19a", f"Serializer.{fld}", ok, f"Serializer::restore puts `{fld}` back from the checkpoint (position AND contents for the output buffer)",
               site=restore.where(0), detail=hows)
     used = set()
@@ -170,7 +170,7 @@ def run(ctx):
             continue
         ck.ob("R19a", key, fld in INERT, f"`{fld}` is not restored: it must be an audited inert cache", site=upd.where(0),
               detail=INERT.get(fld) or "unaudited state that survives an undo")
-    ck.floor("TreeCache state written by update/push/pop", n_w, 6)
+    ck.floor("TreeCache state written by update/push/pop", n_w, 5)
     usedc = set()
     for b in trest.reachable_blocks():
         for st in trest.stmts(b):
@@ -258,10 +258,10 @@ def run(ctx):
         for pb, _ in rc_push:
             ws = [wb for wb, _ in wa if add.question_mark(wb) and add.dominates(add.question_mark(wb)[0], pb)]
             ok = ok and len(ws) == 1
-    ws_ = [(b, show(add.expr_op(t["args"][1], deep=False))) for b, t in add.calls()
-           if (t.get("callee") or "").endswith("Vec::<T, A>::push") and "write_stack" in show(add.expr_op(t["args"][0], deep=False))]
-    kids = [v for _, v in sorted(ws_) if v in ("left", "right")]
-    ck.ob("R19d", S + "add", ok and kids == ["right", "left"],
+    # the pending-node list is found by element type; a pushed child by which field of the pair it is (child1 = right)
+    ws_ = mir.vec_pushes(add, "NodePtr")
+    kids = [v for _, v in sorted(ws_) if v in ("child0", "child1")]
+    ck.ob("R19d", S + "add", ok and kids == ["child1", "child0"],
           "atom / back-reference: bytes written then one tree-cache push; cons: children pushed right-then-left, one pop2_and_cons per Cons step",
           site=add.where(0), detail={"pushes": len(rc_push), "write_atom": len(wa), "pop2_and_cons": len(p2c), "children": kids})
     # sentinel stops the writer without consuming a read op
